@@ -258,6 +258,12 @@ def wf(v):
         y = z3.Const(fresh_name("cy"), sort_of(v.kty))
         out.append((v.c > 0) == z3.Exists([x], z3.Select(v.m, x)))
         out.append((v.c > 1) == z3.Exists([x, y], z3.And(x != y, z3.Select(v.m, x), z3.Select(v.m, y))))
+        if isinstance(v, VDict) and _has_len(v.vty):
+            # the values stored under present keys are well-formed too (e.g. lists in a dict of lists have length >= 0)
+            kk = z3.Const(fresh_name("wk"), sort_of(v.kty))
+            inner = wf(unpack(v.vty, z3.Select(v.a, kk)))
+            if inner:
+                out.append(z3.ForAll([kk], z3.Implies(z3.Select(v.m, kk), z3.And(*inner))))
     elif isinstance(v, VRec):
         for n in v.f:
             out += wf(v.f[n])
